@@ -29,6 +29,7 @@ from typing import Any, Dict, List, Optional, Tuple
 import numpy as np
 
 from mc import qsim, simctl, world
+from mc.report import guard_harness as _guard
 from mc.report import CheckBroken, add_sample, add_violation, count, new_part
 
 LEVEL = "exploration"
@@ -281,6 +282,7 @@ def execute(case, script):
     except CheckBroken:
         raise
     except Exception as exc:  # noqa
+        _guard(exc)
         err = ("raises:" + type(exc).__name__, f"documented call fails: {type(exc).__name__}: {exc}")
     return ctrl, conn, handles, d, err
 
@@ -395,6 +397,7 @@ def check_create_request(req, case, part, which: int) -> None:
     try:
         q = request_to_qlink_1_0(req)
     except Exception as exc:  # noqa
+        _guard(exc)
         if T == "R" and isinstance(exc, ValueError) and "Cannot convert request" in str(exc):
             count(part, "qlink_1_0/refuses-R-by-design")
             return
@@ -721,6 +724,7 @@ def _read(fut) -> Any:
     try:
         v = fut.value
     except Exception as exc:  # noqa
+        _guard(exc)
         return f"<{type(exc).__name__}: {exc}>"
     return v
 
@@ -792,6 +796,7 @@ def run_result_case(case, part) -> None:
             try:
                 rn = q.remote_entangled_node
             except Exception as exc:  # noqa
+                _guard(exc)
                 rn = f"<{type(exc).__name__}: {exc}>"
             if rn != case["remote"]:
                 bad("Qubit.remote_entangled_node", p, rn, case["remote"], "remote_node_id")
